@@ -294,8 +294,13 @@ def check_mapzip(run, S, name, spec, kw):
 
 def check_inventory(run, inv):
     adts = {a['path']: a for a in inv['adts']}
+    actual = {}
+    for path in VALUE_STRUCTS:
+        # (a struct moved into a private submodule and re-exported keeps its public name, not its definition path)
+        c = [path] if path in adts else [q for q in adts if q.split('::')[-1] == path.split('::')[-1] and q.split('::')[0] == path.split('::')[0]]
+        actual[path] = c[0] if len(c) == 1 else path
     for path, fields in VALUE_STRUCTS.items():
-        a = adts.get(path)
+        a = adts.get(actual[path])
         key = '%s:layout:%s' % (PROP, path)
         if not run.ob(key + ':present', a is not None, rule='K9 layout query', expected='struct exists', found='missing'):
             continue
@@ -308,7 +313,7 @@ def check_inventory(run, inv):
     nl = 0
     for path in VALUE_STRUCTS:
         for s in SCALARS:
-            l = lay.get((path, s))
+            l = lay.get((actual[path], s))
             key = '%s:layout:%s:%s' % (PROP, path, s)
             if not run.ob(key + ':present', l is not None, rule='K9 layout query', expected='rustc layout available', found='missing', nontrivial=False):
                 continue
@@ -361,6 +366,10 @@ def check_unsafe(run, S, inv):
             if sp:
                 bodies.append(sp)
     bodies = set(bodies)
+    inlined_names = set()
+    for r in S.roots.values():
+        if not any(l['k'] == 'top' for g_, l in ret_leaves(r['out'])):
+            inlined_names.update(f.split(' @ ')[0] for f in r.get('inlined', []))
     missing = []
     for s in sites:
         sp = parse_span(s['span'])
@@ -377,8 +386,10 @@ def check_unsafe(run, S, inv):
     bad = [i for i in unsafe_impls if not i['trait'].startswith('bytemuck')]
     run.ob('%s:unsafe:impls' % PROP, not bad, rule='K10 unsafe census', expected='unsafe impls only of the bytemuck marker traits', found=[i['trait'] for i in bad][:5])
     unsafe_fns = [f['path'] for f in inv['fns'] if f['unsafe']]
-    # (making the helper safe is fine; a NEW unsafe fn is not covered by the exercised-roots argument above)
-    run.ob('%s:unsafe:fns' % PROP, set(unsafe_fns) <= {'matrix::det_sub_proc_unsafe'}, rule='K10 unsafe census', expected='no unsafe fn other than the private determinant helper', found=unsafe_fns)
+    # an unsafe fn is covered by the same argument as an unsafe block: its body must have been inlined into (and so interpreted
+    # as part of) at least one analysable root - whatever it is called and wherever it lives
+    unexercised = [p_ for p_ in unsafe_fns if 'cgmath::' + p_ not in inlined_names]
+    run.ob('%s:unsafe:fns' % PROP, not unexercised, rule='K10 unsafe census', expected='every unsafe fn is inlined into at least one analysable root', found=unexercised[:5])
 
 
 def parse_span(t):
